@@ -422,14 +422,14 @@ int reb_simulation_remove_particle(struct reb_simulation* const r, int index, in
                 }
             }
 
-            // reshuffle current_Ks
-	    unsigned int counter = 0;
+            // reshuffle current_Ks: remove row and column index from the N*N matrix
+	    const int old_N = r->N;
 	    const int new_N = r->N-1;
-	    for (unsigned int i = 0; i < new_N; i++){
-		if (i == index) counter += r->N;
-	        for (unsigned int j = 0; j < new_N; j++){
-		   if (j == index) counter++;
-		ri_trace->current_Ks[i*new_N+j] = ri_trace->current_Ks[i*new_N+j+counter];
+	    for (int i = 0; i < new_N; i++){
+		const int old_i = (i >= index) ? i+1 : i;
+	        for (int j = 0; j < new_N; j++){
+		    const int old_j = (j >= index) ? j+1 : j;
+		    ri_trace->current_Ks[i*new_N+j] = ri_trace->current_Ks[old_i*old_N+old_j];
                 }
             }
             if (encounter_index<ri_trace->encounter_N_active){
